@@ -5,6 +5,7 @@ executed (two-phase case: the fault-free run is observed, then one variant per m
 event is derived from its gate trace). Post-condition: lint --json before == after.
 """
 import json
+import posixpath
 import re
 
 from rsim import gen as G
@@ -92,12 +93,23 @@ def gen_case(seed, tier, index=0):
         paras.append({"files": tgt if len(tgt) > 1 else tgt[0], "copyright": line, "license": "MIT"})
     if rng.chance(0.5) and not any(p["files"] == "*" for p in paras):
         paras.insert(0, {"files": "*", "copyright": "2001 Everyone", "license": "CC0-1.0"})
-    files.append({"path": ".reuse/dep5", "content": G.dep5(paras, header=rng.chance(0.97))})
+    for p in paras:
+        if rng.chance(0.2):
+            p["copyright_nl"] = True  # 'Copyright:' with the value starting on the next line
+    symlinks = []
+    if rng.chance(0.12):
+        # Debian-packaged projects: .reuse/dep5 is a symlink to debian/copyright (which is itself a file of the project)
+        files.append({"path": "debian/copyright", "content": G.dep5(paras, header=True)})
+        symlinks.append({"path": ".reuse/dep5", "target": "../debian/copyright"})
+    else:
+        files.append({"path": ".reuse/dep5", "content": G.dep5(paras, header=rng.chance(0.97))})
     for lic in sorted({l for p in paras for l in re.findall(r"[A-Za-z0-9][A-Za-z0-9.+-]+", p["license"].split("\n")[0])
                        if l not in ("or", "WITH", "OR", "AND")} | {"MIT"}):
         if rng.chance(0.8):
             files.append({"path": f"LICENSES/{lic}.txt", "content": f"text {lic}\n"})
     world = {"files": files}
+    if symlinks:
+        world["symlinks"] = symlinks
     if rng.chance(0.25):
         world["git"] = {"commit": True}
     env = {}
@@ -218,9 +230,27 @@ def _lint_view(rec):
     return {"files": files, "cats": cats, "compliant": d.get("summary", {}).get("compliant")}
 
 
+def _dep5_state(world):
+    """What sits at .reuse/dep5 when the history starts: the file's text, '-> target' for a symlink, None."""
+    for l in world.get("symlinks") or []:
+        if l["path"] == ".reuse/dep5":
+            return "-> " + l["target"]
+    return next((f["content"] for f in world["files"] if f["path"] == ".reuse/dep5"), None)
+
+
+def _dep5_source(world):
+    """The dep5 text itself (through the symlink when there is one)."""
+    st = _dep5_state(world)
+    if st is not None and st.startswith("-> "):
+        tgt = posixpath.normpath(posixpath.join(".reuse", st[3:]))
+        return next((f["content"] for f in world["files"] if f["path"] == tgt), "")
+    return st or ""
+
+
 def _final(world, rec):
     """Content of dep5 and REUSE.toml after the step, from the world and the step's diff."""
     orig = {f["path"]: f.get("content", "") for f in world["files"]}
+    orig[".reuse/dep5"] = _dep5_state(world)
     out = {}
     for name in (".reuse/dep5", "REUSE.toml"):
         d = (rec.get("diff") or {}).get(name)
@@ -228,6 +258,8 @@ def _final(world, rec):
             out[name] = orig.get(name)
         elif d.get("after") is None:
             out[name] = None
+        elif d["after"][0] == "l":
+            out[name] = "-> " + d["after"][3]
         else:
             out[name] = d.get("content", "<large>")
     return out
@@ -236,7 +268,7 @@ def _final(world, rec):
 def oracle(case, results):
     vs = []
     world = case["world"]
-    dep5_text = next((f["content"] for f in world["files"] if f["path"] == ".reuse/dep5"), None)
+    dep5_text = _dep5_state(world)
     v0 = case["variants"][0]
     r0 = results[0]["records"]
     conv_idx = next((i for i, s in enumerate(v0["steps"]) if s.get("argv", [])[-1:] == ["convert-dep5"]), None)
@@ -321,7 +353,7 @@ def _real_changes(rec):
 
 def _klass(case, differing):
     """Name the dep5 feature responsible, so that a known finding stays specific."""
-    text = next((f["content"] for f in case["world"]["files"] if f["path"] == ".reuse/dep5"), "")
+    text = _dep5_source(case["world"])
     paras = []
     for block in text.split("\n\n"):
         m = re.search(r"^Files: (.*?)(?=^\S)", block + "\nX", re.S | re.M)
@@ -360,7 +392,7 @@ def account(case, results, cov):
     cov.bump("mutating_events_enumerated", len(ev))
     cov.extra["max_events_in_one_run"] = max(cov.extra.get("max_events_in_one_run", 0), len(ev))
     if len(cov.samples) < 3:
-        cov.samples.append({"seed": case["seed"], "dep5": next(f["content"] for f in case["world"]["files"] if f["path"] == ".reuse/dep5")[:600],
+        cov.samples.append({"seed": case["seed"], "dep5": _dep5_source(case["world"])[:600],
                             "events": ev[:12], "variants": [v.get("kind") for v in case["variants"]][:30]})
 
 
